@@ -971,6 +971,28 @@ pub(crate) mod verif_strong {
             .as_ref()
             .map(|p| crate::utils::verif_shim::counts_ptr(p))
     }
+    /// `(strong, weak, destructed, weaked, epoch)` of the block a raw pointer word refers to.
+    ///
+    /// # Safety
+    ///
+    /// The block must still be allocated.
+    pub unsafe fn counts_at_word<T: RcObject>(word: usize) -> Option<(u32, u32, bool, bool, u32)> {
+        Raw::<T>::verif_from_word(word)
+            .as_raw()
+            .as_ref()
+            .map(|p| crate::utils::verif_shim::counts_ptr(p))
+    }
+    /// Address of the payload of the block a raw pointer word refers to.
+    ///
+    /// # Safety
+    ///
+    /// The block must still be allocated and the payload not yet destructed.
+    pub unsafe fn payload_at_word<T: RcObject>(word: usize) -> *const T {
+        match Raw::<T>::verif_from_word(word).as_raw().as_ref() {
+            Some(p) => p.data() as *const T,
+            None => core::ptr::null(),
+        }
+    }
     pub fn iter_remain<T: RcObject>(it: &NewRcIter<T>) -> usize {
         it.remain
     }
